@@ -203,6 +203,10 @@ class ClientProp(Prop):
 
     gen_info: dict | None = None
 
+    def rerun_behaviour(self, rp):
+        from .bridge import rerun_any
+        return rerun_any(rp, self.owns)
+
     def tlc_scripts(self, ctx: Ctx, num: int) -> list[dict]:
         """spec -> code: environment scripts (which operation, which reply class, released to whom, clock ticks) chosen by
         TLC's simulator on Gen_Client; replayed against two real clients and judged like every other recording."""
